@@ -537,6 +537,31 @@ def gen_cases(ctx):
             if op != "pow":
                 cases.append(("entry-cU", op, ("N", c), U))
         cases.append(("grid-neg", "neg", ("U", e, pick(rng, e)[1], "m", rng.randrange(10)), None))
+    # 4d. magnitudes for the non-interval essences: tiny and huge scales; in particular operands whose NOMINAL value (mean
+    #     midpoint rounded to 3 decimals) is exactly 0.0 while the construct lies strictly on one side of zero
+    def scaled(e, k, sgn=1):
+        if e == "D":
+            return ["uniform", (sgn * 1 * k, sgn * 3 * k) if sgn > 0 else (-3 * k, -1 * k)]
+        if e == "P":
+            return ["uniform", ([1 * k, 2 * k], [3 * k, 4 * k])] if sgn > 0 else ["uniform", ([-4 * k, -3 * k], [-2 * k, -1 * k])]
+        if e == "S":
+            return ([[1 * k, 3 * k], [2 * k, 4 * k]], [0.5, 0.5]) if sgn > 0 else ([[-4 * k, -2 * k], [-3 * k, -1 * k]], [0.5, 0.5])
+        return [1 * k, 2 * k] if sgn > 0 else [-2 * k, -1 * k]
+    for e in E:
+        for k in ([1e-4, 2.0 ** -30, 1e-9, 2.0 ** 36] if ctx.tier == "quick" else [1e-4, 3e-5, 2.0 ** -30, 2.0 ** -50, 1e-9, 1e-19, 2.0 ** 36, 1e12]):
+            for sgn in (1, -1):
+                U = ("U", e, scaled(e, k, sgn), rng.choice(["s", "m", None]))
+                V = ("U", rng.choice(E), pick(rng, rng.choice(E), ("pos",))[1], rng.choice(BASE_UNITS))
+                V = ("U", "I", [1, 2], rng.choice(BASE_UNITS)) if rng.random() < 0.5 else V
+                c = rng.choice([3, 2.5, -2])
+                cases.append(("scale-cU", "div", ("N", c), U))
+                cases.append(("scale-UU", "div", (V[0], V[1], pick(rng, V[1], ("pos",))[1], V[3]), U))
+                cases.append(("scale-Uc", "div", U, ("N", c)))
+                cases.append(("scale-cU", "sub", ("N", c), U))
+                cases.append(("scale-UU", "mul", U, ("U", "I", [1, 2], rng.choice(BASE_UNITS))))
+                if sgn > 0:
+                    cases.append(("scale-Uc", "pow", U, ("N", rng.choice([-1, -2, 2]))))
+                cases.append(("grid-neg", "neg", U, None))
     # 5. operands that are not numbers / uncertain numbers (compared on the error kind only)
     for e, op in itertools.product(E, OPS):
         p = pick(rng, e, ("pos",))
@@ -577,6 +602,8 @@ def run(ctx: core.Check, cases=None):
         dependency_stream(ctx)
         history_stream(ctx)
         hist_tie_stream(ctx)
+        numtype_stream(ctx)
+        global_state_stream(ctx)
     UN, convert_pbox, Pbox, Interval, pint = _mods()
     built = []
     reqs = []
@@ -775,6 +802,19 @@ class _Node:
     def __init__(self, obj, shadow, dim, mag, linear, text):
         self.obj, self.shadow, self.dim, self.mag, self.linear, self.text = obj, shadow, dim, mag, linear, text
         self.canon = None
+
+
+def _buffers(c):
+    """the ndarray buffers a construct holds (bounds of an interval / p-box, focal elements of a DS structure)"""
+    out = []
+    for name in ("_left", "_right", "left", "right", "_lo", "_hi", "lo", "hi"):
+        try:
+            a = getattr(c, name, None)
+        except Exception:
+            a = None
+        if isinstance(a, np.ndarray) and a.ndim >= 1 and not any(a is b for b in out):
+            out.append(a)
+    return out
 
 
 def _sign(shadow):
@@ -1021,6 +1061,32 @@ def history_stream(ctx):
                     warnings.simplefilter("ignore")
                     if not _verify(ctx, nd, dict(case), "re-read at the end of the stream", check_mag=False) or before != nd.canon:
                         break
+        # caller-visible aliasing: no result is an operand object or shares memory with one; overwriting the operands'
+        # buffers in place afterwards must not change any earlier result
+        nb = len(case["operands"])
+        bases, derived = pool[:nb], [nd for nd in pool[nb:] if nd.canon is not None]
+        bad = None
+        for nd in derived:
+            for b in bases:
+                if nd.obj is b.obj or nd.obj.construct is b.obj.construct:
+                    bad = f"{nd.text}: the result is the operand object itself"
+                for arr_r in _buffers(nd.obj.construct):
+                    for arr_b in _buffers(b.obj.construct):
+                        if np.shares_memory(arr_r, arr_b):
+                            bad = f"{nd.text}: the result shares memory with the operand {b.text}"
+        for b in bases:
+            for arr in _buffers(b.obj.construct):
+                if arr.flags.writeable and arr.dtype.kind == "f":
+                    arr[...] = arr + 5.0
+        for nd in derived:
+            with warnings.catch_warnings():
+                warnings.simplefilter("ignore")
+                now = canon(nd.obj)
+            if now[:5] != nd.canon[:5]:
+                bad = f"{nd.text}: the result changed after the operands' arrays were overwritten in place"
+        ctx.bump("history:alias-checked", len(derived))
+        if bad:
+            ctx.fail({"form": "history", "when": "aliasing", "check": "alias", "call": "UncertainNumber operators in sequence"}, dict(case), bad)
 
 
 def hist_tie_stream(ctx):
@@ -1120,6 +1186,126 @@ def _eval_hist_term(t, A):
         c = F(a[1][0])
         return op(int(c) if c.denominator == 1 else float(c), _eval_hist_term(a[2], A))
     raise ValueError(head)
+
+
+# ---- numeric types of the plain-number operand (kind S) -------------------------------------------------
+NUMPY_PLAIN = ("float16", "float32", "float64", "int32", "int64")
+
+
+def numtype_stream(ctx):
+    """a plain number given as numpy scalar (float16/32/64, int32/64, longdouble), Fraction, or an int beyond 2**53 must
+    give what the same VALUE as python float/int gives (float64 computation); types the library does not accept at all
+    (Fraction / Decimal / longdouble with an interval) are not judged, numpy's own float/int scalars are."""
+    UN, convert_pbox, Pbox, Interval, pint = _mods()
+    from fractions import Fraction
+    rng = ctx.rng
+    consts = [np.float32(0.1), np.float16(0.3), np.float64(2.5), np.int32(3), np.int64(-2), np.longdouble(0.1), Fraction(1, 3), 2 ** 60 + 1,
+              np.float64(2.0), np.float32(2.0)]
+    for e in "IDPS":
+        for c in consts:
+            for op, side in [("add", "r"), ("mul", "r"), ("sub", "l"), ("div", "l"), ("mul", "l"), ("sub", "r"), ("div", "r"), ("pow", "r")]:
+                if op == "pow" and (float(c) != 2.0 or (e == "I" and not isinstance(c, (int, np.integer)))):
+                    continue            # Interval ** float is not implemented for python floats either
+                kind = type(c).__name__
+                if ctx.tier == "quick" and rng.random() < 0.4 and not (side == "l" and kind in NUMPY_PLAIN and op == "sub"):
+                    continue
+                d = ("U", e, pick(rng, e, ("pos",))[1], rng.choice(["m", "s", None]))
+                plain = int(c) if isinstance(c, (int, np.integer)) else float(c)
+                U1, U2 = build(d), build(d)
+                f = OPS[op]
+                got = run_impl(op, U1, c) if side == "r" else run_impl(op, c, U1)
+                ref = run_impl(op, U2, plain) if side == "r" else run_impl(op, plain, U2)
+                ctx.count(("numtype", kind, e, op, side, repr(d)), True, "numtype:" + kind)
+                txt = f"{describe(op, d, ('N', c)) if side == 'r' else describe(op, ('N', c), d)} with the number given as {kind}"
+                case = {"stream": "numtype", "numkind": kind, "op": op, "side": side, "U": describe_opd(d), "c": repr(c)}
+                feat = {"form": "Uc" if side == "r" else "cU", "op": op, "numkind": kind, "less": e, "call": "UncertainNumber operator, typed number",
+                        "symptom": ("raises:" + got[1]) if got[0] == "err" else "value"}
+                if ref[0] != "ok":
+                    continue
+                if got[0] == "err":
+                    if kind in NUMPY_PLAIN:
+                        ctx.fail(feat, case, f"{txt}: raises {got[1]}; with the python number {plain!r} it works")
+                    continue
+                if got[1] != "un" or not same_bounds(got[2], got[3], ref[2], ref[3], exact=False, depth=4) or not same_dim(got[4], tuple(F(x) for x in ref[4])):
+                    ctx.fail(dict(feat, check="value"), case, f"{txt}: {short(got)} differs from the float64 computation with {plain!r}: {short(ref)}")
+
+
+# ---- process-wide state (kind P) and caller-visible aliasing (kind Q) ---------------------------------------
+def global_state_stream(ctx):
+    """the same operations under np.errstate(all='raise') and under warnings escalated to errors give the same value or
+    raise — never another value; the dependency context, Params and the operands are unchanged afterwards."""
+    UN, convert_pbox, Pbox, Interval, pint = _mods()
+    import pyuncertainnumber.pba as pba
+    from pyuncertainnumber.pba.params import Params
+    from pyuncertainnumber.pba.context import get_current_dependency
+    rng = ctx.rng
+    jobs = []
+    for _ in range(ctx.scale(60, 600)):
+        e, e2 = rng.choice("IDPS"), rng.choice("IDPS")
+        sg = rng.choice(["pos", "pos", "neg"])
+        U = ("U", e, pick(rng, e, (sg,))[1], rng.choice(BASE_UNITS))
+        op = rng.choice(list(OPS))
+        form = rng.choice(["UU", "Uc", "cU", "neg"])
+        if form == "UU":
+            V = ("U", e2, pick(rng, e2, ("pos",))[1], U[3] if op in ("add", "sub") else (None if op == "pow" else rng.choice(BASE_UNITS)))
+            if op == "pow":
+                U = ("U", e, pick(rng, e, ("pos",))[1], U[3])
+            jobs.append((op, U, V))
+        elif form == "Uc":
+            c = rng.choice([2, 0.5, -3]) if op != "pow" else 2
+            if op == "pow":
+                U = ("U", e, pick(rng, e, ("pos",))[1], U[3])
+            jobs.append((op, U, ("N", c)))
+        elif form == "cU":
+            if op == "pow":
+                U = ("U", e, pick(rng, e, ("pos",))[1], None)
+            jobs.append((op, ("N", rng.choice([2, 3.0, 10])), U))
+        else:
+            jobs.append(("neg", U, None))
+    # tiny operands with zero nominal value: inf magnitudes / RuntimeWarnings are produced here
+    for e in "DPS":
+        k = 1e-4
+        par = {"D": ["uniform", (k, 3 * k)], "P": ["uniform", ([k, 2 * k], [3 * k, 4 * k])], "S": ([[k, 3 * k], [2 * k, 4 * k]], [0.5, 0.5])}[e]
+        jobs.append(("div", ("N", 3), ("U", e, par, "s")))
+        jobs.append(("div", ("U", "I", [1, 2], "m"), ("U", e, par, "s")))
+    for op, dl, dr in jobs:
+        case = {"stream": "global-state", "op": op, "l": dl, "r": dr}
+        ctx.count(("gstate", op, repr(dl), repr(dr)), True, "global-state")
+        L0, R0 = build(dl), (build(dr) if dr is not None else None)
+        base = run_impl(op, L0, R0)
+        snap = [canon(x) if isinstance(x, UN) else x for x in (L0, R0)]
+        dep0, steps0 = get_current_dependency(), Params.steps
+        for mode in ("errstate", "warnings"):
+            L, R = build(dl), (build(dr) if dr is not None else None)
+            before = [canon(x) if isinstance(x, UN) else x for x in (L, R)]
+            try:
+                if mode == "errstate":
+                    with np.errstate(all="raise"):
+                        got = _raw(op, L, R)
+                else:
+                    with warnings.catch_warnings():
+                        warnings.simplefilter("error")
+                        got = _raw(op, L, R)
+            finally:
+                pass
+            feat = {"form": "global-state", "mode": mode, "op": op, "call": "UncertainNumber operator under " + mode,
+                    "symptom": ("raises:" + got[1]) if got[0] == "err" else "value"}
+            after = [canon(x) if isinstance(x, UN) else x for x in (L, R)]
+            if after != before:
+                ctx.fail(dict(feat, check="operands-changed"), case, f"{describe(op, dl, dr)} under {mode}: an operand was modified")
+            if get_current_dependency() != dep0 or Params.steps != steps0:
+                ctx.fail(dict(feat, check="state-leaked"), case, f"{describe(op, dl, dr)} under {mode}: ambient dependency / Params changed")
+            if got[0] == "err":
+                continue                      # an escalated warning / FloatingPointError propagating is acceptable
+            if base[0] != "ok" or got[:5] != base[:5]:
+                ctx.fail(dict(feat, check="value"), case, f"{describe(op, dl, dr)}: under {mode} the result is {short(got)}, under the default settings {short(base)}")
+
+
+def _raw(op, L, R):
+    try:
+        return canon(-L) if op == "neg" else canon(OPS[op](L, R))
+    except BaseException as e:  # noqa
+        return ("err", ekind(e))
 
 
 def describe_opd(d):
